@@ -60,6 +60,33 @@ pub fn worst_case_total<S: Src>(s: &mut S) {
     vreach!();
 }
 
+/// (a'') the served estimate is the sum of the two components, each compounded
+/// with ITS OWN percentage (table region, where the kernel is deterministic
+/// for the solver: percentages <= 24, horizon <= 24; prices < 2^K).
+pub fn worst_case_components<S: Src, const K: u32>(s: &mut S) {
+    let exec = s.u64();
+    let exec_pct = s.u16();
+    let da = s.u64();
+    let da_pct = s.u16();
+    if K == 0 {
+        // fixed price pair: only the percentages and the horizon are symbolic
+        vassume!(exec == 1000 && da == 777);
+    } else {
+        vassume!(exec < (1u64 << K) && da < (1u64 << K));
+    }
+    let for_height = s.u32();
+    let height = s.u32();
+    vassume!(exec_pct <= 24 && da_pct <= 24);
+    vassume!(height >= for_height && height - for_height <= 24);
+    let algo = updater(exec, exec_pct, da, da_pct, for_height).algorithm();
+    let w = algo.worst_case(height);
+    let e = cumulative_percentage_change(exec, for_height, exec_pct as u64, height);
+    let d = cumulative_percentage_change(da, for_height, da_pct as u64, height);
+    vassert!(w == e.saturating_add(d), "C35 the worst case compounds the execution and the DA price each with its own percentage");
+    vassert!(w >= exec.max(da), "C35 the worst case is at least each current price component");
+    vreach!();
+}
+
 /// (b) monotone in the horizon inside the precomputed-table region: the
 /// estimate for horizon b+1 is not below the one for horizon b
 /// (price < 2^K).
@@ -150,6 +177,9 @@ mod proofs {
     }
     proof!(c35_total, 2, total);
     proof!(c35_worst_case_total, 2, worst_case_total);
+    proof!(c35_worst_case_components_fixed, 2, worst_case_components::<_, 0>);
+    proof!(c35_worst_case_components_k10, 2, worst_case_components::<_, 10>);
+    proof!(c35_worst_case_components_k20, 2, worst_case_components::<_, 20>);
     proof!(c35_table_monotone_k16, 2, table_monotone::<_, 16>);
     proof!(c35_table_monotone_k20, 2, table_monotone::<_, 20>);
     proof!(c35_table_monotone_k28, 2, table_monotone::<_, 28>);
